@@ -572,6 +572,22 @@ func (c *Ctx) RouterDoc(o RouterOpts) *Doc {
 			pi.SetOp(m, op)
 		}
 	}
+	// a reserved path item without operations that sorts before a literal sibling of its
+	// own parent (/orders/0reserved beside /orders/b): the sibling keeps its operations
+	if rapid.IntRange(0, 2).Draw(t, "reserved_sibling") == 0 {
+		for _, tpl := range SortedKeys(d.Paths) {
+			i := strings.LastIndex(tpl, "/")
+			last := tpl[i+1:]
+			if last == "" || strings.HasPrefix(last, "{") || len(d.Paths[tpl].Ops()) == 0 {
+				continue
+			}
+			if _, taken := d.Paths[tpl[:i+1]+"0reserved"]; !taken {
+				d.Paths[tpl[:i+1]+"0reserved"] = &PathItem{Description: "reserved, nothing published yet"}
+				c.Tag("path-item:reserved-sibling")
+				break
+			}
+		}
+	}
 	return d
 }
 
